@@ -83,6 +83,13 @@ class Setup:
         self.interp.compute_interpolant(PH, s)
         return s
 
+    def phi_spline_inplace(self, PH):
+        """the SAME Spline2D object re-interpolated in place (what gridStep does with its per-z potential splines)"""
+        if not hasattr(self, "_phi_obj"):
+            self._phi_obj = self.spl.Spline2D(self.bs[1], self.bs[0])
+        self.interp.compute_interpolant(PH, self._phi_obj)
+        return self._phi_obj
+
     def drift(self, Cphi, q, r):
         """(d_theta, d_r) of the traced-back characteristic at scattered points"""
         drp = self.t2.eval(Cphi, q, r, 0, 1)
@@ -269,6 +276,8 @@ def _formula(case, spl, adv, acc):
             hist.append((PH, Cphi, phis, dt, vvals[0], q))
     lip_first, dmax_first = lip, dmax
     for hstep, (PH, Cphi, phis, dt, v, q) in enumerate(hist):
+        if case["seed"] % 2:
+            phis = S.phi_spline_inplace(PH)          # odd seeds: one potential spline object, refilled before every step
         if hstep >= 2:
             lip, dmax = (lip2, dmax2) if hstep == 2 else (lip_first, dmax_first)
             cls.add("%s/history-step%d" % (base, hstep))
